@@ -23,6 +23,10 @@
 // print the reference value for its own world. A family of one-operator trees puts a signed operand
 // (unary - / + / not on a variable, attribute read, item access, parenthesised sum) on the left, on the
 // right and on both sides of every binary typing next to literals and constant sub-expressions.
+//
+// A second family (longin.go) asks `in` / `not in` of lists with 50, 51, 60 and 100 elements (literal, range(),
+// []interface{} / []int / []float64 / []string from the context) with plain and computed needles; the
+// include-variables position also stands with `only` (hash form, second entry, `with k = e only`).
 package main
 
 import (
@@ -54,6 +58,8 @@ type position struct {
 	// filter, join) after it has passed through the syntactic position; integers and strings only
 	route bool
 	body  string // body of the auxiliary template when it is not the plain `{{ k }}`
+	// small: the position runs in the classes up to two operators and in the families only
+	small bool
 }
 
 const (
@@ -101,6 +107,15 @@ var positions = []position{
 	{name: "default-concat", tmpl: "{{\x03null|default(\x05\x00\x05)\x03~\x03''\x03}}", types: "is", route: true},
 	{name: "macro-concat", tmpl: "C{{\x03m(\x05\x00\x05)\x03}}", types: "is", route: true},
 	{name: "if-spelling", tmpl: "{%\x04if\x04(\x05\x00\x05)\x03~\x03''\x03==\x03'\x06'\x04%}T{%\x04else\x04%}F{%\x04endif\x04%}", types: "is", route: true},
+	// the include-variables position crossed with `only` (added after seeded change C08-J): the included
+	// template sees nothing but k, yet the expression is the caller's — it reads the caller's variables (and,
+	// in the loop form, the loop variable w) and must have the value it has in a print tag. Hash form as sole
+	// and as second entry, the name = value form of this grammar, list values, and the `~` route behind it.
+	{name: "include-only", tmpl: "{%\x04include\x04'p'\x04with\x04{\x03'k'\x03:\x03\x00\x03}\x04only\x04%}", sub: "p", types: "isb"},
+	{name: "include-only-2nd-key", tmpl: "{%\x04include\x04'p'\x04with\x04{\x03'j'\x03:\x030\x03,\x03'k'\x03:\x03\x00\x03}\x04only\x04%}", sub: "p", types: "isb", small: true},
+	{name: "include-assign-only", tmpl: "{%\x04include\x04'p'\x04with\x04k\x03=\x03\x00\x04only\x04%}", sub: "p", types: "isb", small: true},
+	{name: "include-list-only", tmpl: "{%\x04include\x04'p'\x04with\x04{\x03'k'\x03:\x03\x00\x03}\x04only\x04%}", sub: "p", types: "l"},
+	{name: "include-only-concat", tmpl: "{%\x04include\x04'p'\x04with\x04{\x03'k'\x03:\x03\x00\x03}\x04only\x04%}", sub: "p", body: "{{ k ~ '' }}", types: "is", route: true},
 }
 
 var forSeq = func() *position {
@@ -252,6 +267,12 @@ func goValue(v val) interface{} {
 		return v.b
 	case 's':
 		return v.s
+	case 'L':
+		out := make([]interface{}, len(v.ls))
+		for i, x := range v.ls {
+			out[i] = x
+		}
+		return out
 	}
 	out := make([]interface{}, len(v.l))
 	for i, x := range v.l {
@@ -771,7 +792,7 @@ func runCase(sk *node, key string, c class) *vlib.Outcome {
 			}
 			for pi := range positions {
 				pos := &positions[pi]
-				if !strings.ContainsRune(pos.types, posType(in.root.typ)) || (c.few && !fewPositions[pos.name]) {
+				if !strings.ContainsRune(pos.types, posType(in.root.typ)) || (c.few && !fewPositions[pos.name]) || (pos.small && c.k+c.u > 2) {
 					continue
 				}
 				if pos.route && !c.routes && !cd.large {
@@ -782,8 +803,11 @@ func runCase(sk *node, key string, c class) *vlib.Outcome {
 					continue
 				}
 				revs := revs
-				if c.k+c.u > 2 && (st.sp == spWide || st.par == parRoot || st.par == parMask) {
-					revs = revs[:1] // beyond two operators the wide, whole-expression and subset forms are rendered once
+				if c.k+c.u > 2 && (st.sp != spNormal || st.par == parRoot || st.par == parMask) {
+					// beyond two operators the tight, wide, whole-expression and subset forms are rendered once
+					// (the tight form until the `only` positions and the long-haystack family were added:
+					// re-evaluation is about values, min/normal and full/normal carry it)
+					revs = revs[:1]
 				}
 				r, outs, wants, oks := renderEvals(pos, st, revs)
 				got := outs[0]
@@ -842,7 +866,7 @@ func runCase(sk *node, key string, c class) *vlib.Outcome {
 			for _, st := range loopStyles(c, cd) {
 				for pi := range positions {
 					pos := &positions[pi]
-					if pos.route || !strings.ContainsRune(pos.types, posType(in.root.typ)) || (!c.loopWide() && !fewPositions[pos.name]) {
+					if pos.route || !strings.ContainsRune(pos.types, posType(in.root.typ)) || (!c.loopWide() && !fewPositions[pos.name]) || (pos.small && c.k+c.u > 2) {
 						continue
 					}
 					r, out, want, n := renderLoop(pos, st, evs)
@@ -934,8 +958,9 @@ func report(o *vlib.Outcome, bad []mismatch) {
 	if b.Evaluation != "" {
 		ev = " (" + b.Evaluation + ")"
 	}
+	// the message abbreviates the list literals of 50 .. 100 elements; the replay detail has the exact templates
 	o.Violation = fmt.Sprintf("expression %s has value %q, template %q%s must render %q but renders %q [%s, %s]%s; %d differing renders of this tree: %s",
-		b.Expr, b.Value, b.Template, auxString(b.Aux), b.Want, b.Got, b.Position, b.Style, ev, len(bad), strings.Join(pp, ", "))
+		hayAbbrev.Replace(b.Expr), b.Value, hayAbbrev.Replace(b.Template), auxString(b.Aux), b.Want, b.Got, b.Position, b.Style, ev, len(bad), strings.Join(pp, ", "))
 	d, _ := json.Marshal(bad)
 	o.Detail = json.RawMessage(d)
 }
@@ -955,21 +980,28 @@ func signedStyles(thorough bool) []style {
 	return []style{{par: parMin, sp: spNormal}, {par: parMin, sp: spTight}, {par: parFull, sp: spWide}}
 }
 
-func runSigned(sc signedCase, thorough bool) *vlib.Outcome {
+// runFamily: a case of the signed-operand family (fam = "signed") or of the long-haystack family ("longin"):
+// every tree of the case in every position and route, re-rendered on one engine and inside the loop.
+func runFamily(fam string, sc signedCase, thorough bool) *vlib.Outcome {
 	o := &vlib.Outcome{Counters: map[string]int64{}}
+	defer func() {
+		if fam != "signed" {
+			o.Nontrivial = sc.always
+		}
+	}()
 	var bad []mismatch
 	add := func(m mismatch) {
 		if len(bad) < 40 {
 			bad = append(bad, m)
 		}
 	}
-	o.Class = "signed: no tree with two defined evaluations"
+	o.Class = fam + ": no tree with two defined evaluations"
 	for _, x := range sc.trees {
 		in := x.inst()
-		o.Counters["signed_trees"]++
+		o.Counters[fam+"_trees"]++
 		evs := chooseWorlds(in, nil, signedOrder, 1+again)
 		if len(evs) < 2 {
-			o.Counters["signed_trees_with_fewer_than_two_defined_evaluations"]++
+			o.Counters[fam+"_trees_with_fewer_than_two_defined_evaluations"]++
 			continue
 		}
 		o.Counters["trees"]++
@@ -977,10 +1009,10 @@ func runSigned(sc signedCase, thorough bool) *vlib.Outcome {
 		if valueChanges(evs) {
 			o.Nontrivial = true
 			o.Counters["trees_whose_value_changes_between_evaluations"]++
-			o.Counters["signed_trees_whose_value_changes_between_evaluations"]++
-			o.Class = "signed " + in.root.op + ": the value changes between evaluations"
+			o.Counters[fam+"_trees_whose_value_changes_between_evaluations"]++
+			o.Class = fam + " " + in.root.op + ": the value changes between evaluations"
 		} else if !o.Nontrivial {
-			o.Class = "signed " + in.root.op + ": the same value in every defined world"
+			o.Class = fam + " " + in.root.op + ": the same value in every defined world"
 		}
 		base := evs[0].in
 		for _, st := range signedStyles(thorough) {
@@ -1004,7 +1036,7 @@ func runSigned(sc signedCase, thorough bool) *vlib.Outcome {
 					}
 					if first {
 						o.Counters["renders"]++
-						o.Counters["signed_renders"]++
+						o.Counters[fam+"_renders"]++
 						first = false
 					} else {
 						o.Counters["renders_again_on_the_same_engine"]++
@@ -1075,13 +1107,14 @@ func auxString(a map[string]string) string {
 }
 
 func run(t *vlib.T) {
-	only := os.Getenv("C08_CLASSES") // development aid: run only the named classes (k2u2,k4u0,…); never set by run.sh
+	only := os.Getenv("C08_CLASSES") // development aid: run only the named classes / families (k2u2,k4u0,signed,longin,…); never set by run.sh
+	wanted := func(name string) bool { return only == "" || strings.Contains(","+only+",", ","+name+",") }
 	for _, c := range classes(t.Thorough()) {
 		c := c
-		if only != "" && !strings.Contains(","+only+",", ","+c.String()+",") {
-			continue
-		}
 		for _, typ := range rootTypes {
+			if !wanted(c.String()) {
+				break
+			}
 			genInto(c.k, c.u, typ, c.mode(), func(sk *node) {
 				if t.Stopped() {
 					return
@@ -1098,13 +1131,24 @@ func run(t *vlib.T) {
 			// after the classes up to two operators
 			for _, sc := range signedCases() {
 				sc := sc
-				if t.Stopped() {
+				if t.Stopped() || !wanted("signed") {
 					break
 				}
 				if !t.Owns(sc.key) {
 					continue
 				}
-				t.Case(sc.key, func() *vlib.Outcome { return runSigned(sc, t.Thorough()) })
+				t.Case(sc.key, func() *vlib.Outcome { return runFamily("signed", sc, t.Thorough()) })
+			}
+			// the long-haystack family: in / not in over lists of 50 .. 100 elements with plain and computed needles
+			for _, sc := range longInCases() {
+				sc := sc
+				if t.Stopped() || !wanted("longin") {
+					break
+				}
+				if !t.Owns(sc.key) {
+					continue
+				}
+				t.Case(sc.key, func() *vlib.Outcome { return runFamily("longin", sc, t.Thorough()) })
 			}
 		}
 	}
@@ -1164,14 +1208,15 @@ func main() {
 			"large integers (999999999999999, 1000000000000000, 4503599627370497, big = 2^53-1, o.g = 10^14, gs[1] = -(2^53-1), the same out of max / min / pick / [..][1] / {..}['k'], " +
 			"and as results of g + i, g - i, i + g, i * g, g / i, m * m and m ^ 2 over the medium factors 2^26+1, 94906265, 31622777, 31622776, 10^7, 2^25) under ~ with strings and each other, " +
 			"== != < >=, g - g, g % i, unary minus, |abs, |trim, " +
+			"in / not in also over haystacks of 50, 51, 60 and 100 elements (list literal, range(1, n), []interface{} / []int / []float64 / []string from the context) with plain and computed needles (a + b, b - a, a * 1, -a, 12 / a, b % a, a ^ 2, a|abs, s|length, xs[1] + a * b, a ~ '', s|upper, s ~ a, ...; the long-haystack family), " +
 			"attribute/index/literal/variable leaves and comma-containing leaves of the same values (max(2, a), min(b, a, 2), pick(1, a, xs[1]), [a, 12][1], {'k': b, 'j': 2}['k'], " +
 			"max(a, min(b, o.n)), null|default(pick(1, a, s)), pick(0, \"ab\", ','), [max(2, a), b], ...) assigned from fixed pools by rotation, the most discriminating well-defined rotations first, " +
 			"every skeleton both with and without comma-containing leaves wherever two or more rotations are run (single-rotation classes: quick runs the other kind in two styles, thorough alternates by skeleton)), printed with " +
 			"minimal / full / maximal / whole-expression parentheses (thorough: also every subset of the optional pairs) x normal / tight / wide spacing, in every " +
-			"syntactic position (print, if, elseif, set, for, include-with sole / first / second entry, filter / function / macro argument, array element, hash value, index) " +
+			"syntactic position (print, if, elseif, set, for, include-with sole / first / second entry, include-with ... only (hash as sole entry; up to two operators also as second entry and as `with k = e only`), filter / function / macro argument, array element, hash value, index) " +
 			"and, for integer and string values, through every stringification route (e ~ '', '' ~ e, e|trim, (e ~ '')|length, [0, e]|join, (e) ~ '' == 'value', and q ~ '' after set / hash element / for / include variable / id(e) / default(e) / macro parameter: " +
 			"all trees up to two operators, beyond that the trees in which an integer of magnitude >= 10^14 occurs); " +
-			"every tree is evaluated again with other values of its variables — the registered template rendered a second and third time (beyond two operators: a second time, and not the wide, whole-expression and subset forms) on the same engine with the contexts of other worlds " +
+			"every tree is evaluated again with other values of its variables — the registered template rendered a second and third time (beyond two operators: a second time, and only the normally spaced minimal and full forms) on the same engine with the contexts of other worlds " +
 			"(W1..W7: other signs, zero, other truth values, strings, list lengths and large integers; only worlds in which every subexpression is defined, those that change the value first), and the tree inside " +
 			"{% for w in ws %} over the same worlds with its variables spelled w.a, w.o.n, w.xs[1] (up to two operators: every non-route position, three styles; beyond: print / print-long / if / set / for-seq, minimal form) — each evaluation must print the value for its own world; " +
 			"plus the signed-operand family: for every binary typing with an operand a unary operator applies to, unary - / + on a, o.n, xs[1], (a + b), (o.n + 2) (not on t, o.f, bs[0], (t and f); - / + on big, o.g, gs[1], c, o.c, ms[1] and sums) as left operand, as right operand " +
@@ -1186,6 +1231,7 @@ func main() {
 			"x|trim and x ~ '' of an integer are its canonical decimal spelling, [0, x]|join(',') is '0,' followed by it, |length of a string counts its characters (the obvious meanings; the statement's exact integers within +-2^53 have one decimal spelling)",
 			"trees larger than the tier's bound, and leaf assignments other than the rotations of the fixed pools in the eight worlds, are not explored",
 			"unary plus on an integer is the integer itself; a variable spelled w.a inside {% for w in ws %} has the value of key a of the current element of ws",
+			"an integer is in a list of integers (a string in a list of strings) exactly when it equals one of the elements, whatever the length of the list and whatever Go type holds the integers ([]interface{}, []int, []float64 with whole values; range(1, n) is 1 .. n); `include ... with {...} only` hides the caller's variables from the INCLUDED template, the with-expressions are the caller's",
 		},
 		QuickDeadline:    150,
 		ThoroughDeadline: 840,
@@ -1227,7 +1273,8 @@ func main() {
 				b = append(b, s)
 			}
 			b = append(b, fmt.Sprintf("signed-operand family: %d cases (binary typing x left / right / both x signed form), all positions and routes, %d styles, up to %d evaluations per engine and per loop", len(signedCases()), len(signedStyles(tier == "thorough")), 1+again))
-			b = append(b, fmt.Sprintf("re-evaluation: %d worlds; every tree rendered again on the same engine (up to %d further worlds up to two operators, one beyond) and inside a for loop over up to %d worlds", len(worlds), again, 1+again))
+			b = append(b, longInSummary()+fmt.Sprintf(", all boolean positions, %d styles, up to %d evaluations per engine and per loop", len(signedStyles(tier == "thorough")), 1+again))
+		b = append(b, fmt.Sprintf("re-evaluation: %d worlds; every tree rendered again on the same engine (up to %d further worlds up to two operators, one beyond) and inside a for loop over up to %d worlds", len(worlds), again, 1+again))
 			cov["bounds"] = b
 			cov["perturbed_tables"] = len(tables)
 		},
